@@ -256,6 +256,9 @@ def gen_valid(r, size=None):
         while True:
             uid = [any_byte(r) for _ in range(7)]
             if r.chance(1, 3): uid[0] = r.choice([0x00, 0x02, 0x10, 0x12, 0xff, 0xfd, 0xed])
+            if c.uids and r.chance(1, 3):
+                # a near-duplicate: the unique id of an earlier board with exactly one of its seven bytes changed (still distinct)
+                uid = list(r.choice(sorted(c.uids))); k = r.below(7); uid[k] = (uid[k] + r.choice([1, 0x80, 0xFF, r.range(1, 255)])) & 0xFF
             if tuple(uid) not in c.uids: c.uids.add(tuple(uid)); break
         us = "".join("%02x" % x for x in uid)
         b = {"id": c.boards.fresh("b"), "uid": "0x" + (us.upper() if r.chance(1, 2) else us), "feats": [], "explicit_empty": r.chance(1, 4)}
